@@ -98,6 +98,9 @@ type Exec struct {
 	SkipDeadRelays bool
 	ServerClosed   bool
 	tcp            *TCPState
+	sweeps         int
+	// Select reports whether a disagreement tag belongs to the property being checked (nil = all).
+	Select func(tag string) bool
 }
 
 func (x *Exec) viol(tag, class string, ev Event, detail string) *Viol {
@@ -454,11 +457,21 @@ func (x *Exec) Sweep(ev Event) *Viol { //nolint:gocognit,cyclop
 			relays = append(relays, rl{nil, d.Relay})
 		}
 	}
-	for _, r := range relays {
+	for ri, r := range relays {
 		if r.a != nil && r.a.TCP {
 			continue
 		}
-		for _, pn := range w.PNames {
+		// Order: the sweep of step s starts with peer (s+j) mod n and ends with an extra
+		// datagram of peer (s+j+1) mod n, which is the first sender of the next sweep on this
+		// relay: consecutive datagrams of one peer across a clock advance expose state that
+		// the relay loop carries from one datagram to the next.
+		np := len(w.PNames)
+		order := make([]string, 0, np+1)
+		for k := 0; k < np; k++ {
+			order = append(order, w.PNames[(x.sweeps+ri+k)%np])
+		}
+		order = append(order, w.PNames[(x.sweeps+ri+1)%np])
+		for _, pn := range order {
 			p := w.P[pn]
 			tag := w.Tag()
 			_, _ = p.Sock.WriteTo([]byte(tag), r.relay)
@@ -473,6 +486,7 @@ func (x *Exec) Sweep(ev Event) *Viol { //nolint:gocognit,cyclop
 			}
 		}
 	}
+	x.sweeps++
 	synctest.Wait()
 	got := w.Collect()
 	sort.Slice(want, func(i, j int) bool { return want[i].String() < want[j].String() })
@@ -481,6 +495,7 @@ func (x *Exec) Sweep(ev Event) *Viol { //nolint:gocognit,cyclop
 }
 
 func (x *Exec) diff(ev Event, want, got []Delivery) *Viol {
+	var all []*Viol
 	wm := map[string]int{}
 	for _, d := range want {
 		wm[d.String()]++
@@ -514,8 +529,7 @@ func (x *Exec) diff(ev Event, want, got []Delivery) *Viol {
 		if d.Kind == "other" {
 			class = "unexpected-message"
 		}
-
-		return x.viol("leak-"+dir, class, ev, fmt.Sprintf("got %v; trace %v", d, x.Trace))
+		all = append(all, x.viol("leak-"+dir, class, ev, fmt.Sprintf("got %v; trace %v", d, x.Trace)))
 	}
 	for _, d := range want {
 		if wm[d.String()] > 0 {
@@ -523,12 +537,24 @@ func (x *Exec) diff(ev Event, want, got []Delivery) *Viol {
 			if d.Kind == "udp" {
 				dir = "c2p"
 			}
-
-			return x.viol("miss-"+dir, "authorised-not-relayed", ev, fmt.Sprintf("missing %v; trace %v", d, x.Trace))
+			all = append(all, x.viol("miss-"+dir, "authorised-not-relayed", ev, fmt.Sprintf("missing %v; trace %v", d, x.Trace)))
+		}
+	}
+	if len(all) == 0 {
+		return nil
+	}
+	// several disagreements in one sweep: report the first one that belongs to the
+	// property being checked, so that e.g. a leak toward a peer does not mask a leak
+	// toward a client caused by the same stale entry
+	if x.Select != nil {
+		for _, v := range all {
+			if x.Select(v.Tag) {
+				return v
+			}
 		}
 	}
 
-	return nil
+	return all[0]
 }
 
 // CheckCount compares Server.AllocationCount with the model.
